@@ -60,11 +60,13 @@ def polysOf : Geom → Option (List Poly)
   | .multiPolygon ps => some ps
   | _ => none
 
-/-- some vertex of one member polygon lies in the *interior* of an edge of another member -/
+/-- some vertex of one ring lies in the *interior* of an edge of another ring (of another member polygon, or
+of the same polygon: a hole touching the shell, or another hole, at a point that is a vertex of only one of them) -/
 def vertexOnForeignEdge (ps : List Poly) : Bool :=
-  ps.zipIdx.any (fun (p, i) => ps.zipIdx.any (fun (q, j) =>
-    i != j && (p.rings.flatten).any (fun v =>
-      (q.rings.flatMap segs).any (fun (a, b) => lineCoord a b v && v != a && v != b))))
+  let rings := ps.flatMap Poly.rings
+  rings.zipIdx.any (fun (r, i) => rings.zipIdx.any (fun (q, j) =>
+    i != j && r.any (fun v =>
+      (segs q).any (fun (a, b) => lineCoord a b v && v != a && v != b))))
 
 def shapeTags (g : Geom) : String :=
   match polysOf g with
